@@ -1,6 +1,7 @@
 """C18 — results on disk survive a crash; a resumed run equals an uninterrupted one (SIGKILL injection + history comparison)."""
 import collections
 import glob
+import copy
 import json
 import os
 import pickle
@@ -38,7 +39,7 @@ REQUIRED_COUNTERS = {'crash.runs': 40, 'crash.killed': 30, 'crash.after_first_sa
 TRACE_SET = ('openat,open,creat,write,pwrite64,writev,pwritev,rename,renameat,renameat2,unlink,unlinkat,ftruncate,truncate,close,'
              'fsync,fdatasync,link,linkat')
 
-SCENARIOS = ['dmrg2_pkl', 'dmrg1_h5', 'tebd_pkl', 'tdvp_h5', 'expmpo_pkl']
+SCENARIOS = ['dmrg2_pkl', 'dmrg1_h5', 'tebd_pkl', 'tdvp_h5', 'expmpo_pkl', 'tebdg_h5']
 
 
 def plan(tier, seed, jobs):
@@ -47,9 +48,10 @@ def plan(tier, seed, jobs):
     for k, u in enumerate(crash):  # one scenario per shard: each worker needs only one reference / trace run
         u['scn'], u['half'] = k % 5, k // 5
     # (every checkpoint of every scenario, the last one before the final save included: 5-7 checkpoints per scenario)
-    resume = shard('compiled', 35 if q else 70, 5, part='resume', timeout=3000, time_budget=200 if q else 1700)
+    # (the sixth scenario, TEBD on grouped sites, takes part in the resume cases only)
+    resume = shard('compiled', 42 if q else 84, 6, part='resume', timeout=3000, time_budget=200 if q else 1700)
     for k, u in enumerate(resume):
-        u['scn'] = k % 5
+        u['scn'] = k % 6
     engine = shard('compiled', 12 if q else 120, 2, part='engine', timeout=3000, time_budget=200 if q else 1700)
     second = shard('compiled', 60 if q else 300, 4, part='second', timeout=3000, time_budget=200 if q else 1700)
     for k, u in enumerate(second):
@@ -86,12 +88,18 @@ def sim_spec(name):
     else:
         base['simulation_class'] = 'RealTimeEvolution'
         base['final_time'] = 0.4
-        base['algorithm_class'] = {'tebd': 'TEBDEngine', 'tdvp': 'TwoSiteTDVPEngine', 'expmpo': 'ExpMPOEvolution'}[name.split('_')[0]]
+        base['algorithm_class'] = {'tebd': 'TEBDEngine', 'tebdg': 'TEBDEngine', 'tdvp': 'TwoSiteTDVPEngine',
+                                   'expmpo': 'ExpMPOEvolution'}[name.split('_')[0]]
         base['algorithm_params'] = {'trunc_params': {'chi_max': 8, 'svd_min': 1e-10}, 'dt': 0.05, 'N_steps': 2}
         if name.startswith('tebd'):
             base['algorithm_params']['order'] = 2
             base['algorithm_params']['trunc_params'] = {'chi_max': 2, 'svd_min': 1e-10}  # truncating: the error measurements are non-trivial
             base['algorithm_params']['max_trunc_err'] = None
+        if name.startswith('tebdg'):
+            # sites grouped in pairs for the algorithm (psi in a checkpoint is grouped; measurements and the final state are not)
+            base['model_params']['L'] = 6
+            base['group_sites'] = 2
+            base['algorithm_params']['trunc_params'] = {'chi_max': 8, 'svd_min': 1e-10}
         if name.startswith('expmpo'):
             base['algorithm_params'].update({'compression_method': 'SVD', 'approximation': 'II', 'order': 1})
     return base, ext
@@ -213,10 +221,10 @@ def reference(ctx, name):
     return ref
 
 
-def inspect_files(ctx, wd, ext, ref):
+def inspect_files(ctx, wd, ext, ref, stem='out', others=()):
     """For the output and the backup file: None (absent) | ('valid', m) | ('invalid', reason)."""
     res = {}
-    for label, fn in (('output', 'out' + ext), ('backup', 'out.backup' + ext)):
+    for label, fn in (('output', stem + ext), ('backup', stem + '.backup' + ext)) + tuple(('other:' + o, o) for o in others):
         p = os.path.join(wd, fn)
         if not os.path.exists(p):
             res[label] = None
@@ -270,9 +278,14 @@ def case_crash(ctx, i):
     sc, k = pts[idx]
     wd = tempfile.mkdtemp(prefix='c-', dir=ctx._root)
     case = {'scenario': name, 'syscall': sc, 'occurrence': k, 'of': ref['counts'][sc]}
+    # every third case: output names with a dot in the stem (as output_filename_params produces them for parameter scans), and
+    # after the kill another simulation of the same scan runs to its end in the same directory before the files are inspected
+    dotted = (j % 3 == 1)
+    stem = 'out_dt_0.50' if dotted else 'out'
     try:
-        paths = [os.path.join(wd, 'out' + ref['ext']), os.path.join(wd, 'out.backup' + ref['ext'])]
-        rc, out, err = child(wd, 'run', {'record': False, 'sim': ref['sim']},
+        paths = [os.path.join(wd, stem + ref['ext']), os.path.join(wd, stem + '.backup' + ref['ext'])]
+        sim_a = dict(ref['sim'], output_filename=stem + ref['ext'])
+        rc, out, err = child(wd, 'run', {'record': False, 'sim': sim_a},
                              strace={'paths': paths, 'log': os.path.join(wd, 'strace.log'), 'inject': (sc, k)})
         ctx.count('crash.runs')
         ctx.count('crash.syscall.' + sc)
@@ -283,7 +296,26 @@ def case_crash(ctx, i):
             ctx.count('crash.timeout')
             return
         ctx.count('crash.killed')
-        files = inspect_files(ctx, wd, ref['ext'], ref)
+        others = ()
+        if dotted:
+            stem_b = 'out_dt_0.25'
+            sim_b = copy.deepcopy(ref['sim'])
+            sim_b['output_filename'] = stem_b + ref['ext']
+            sim_b['model_params']['g'] = 0.7  # (another point of the scan: none of its files matches a checkpoint of the killed run)
+            if 'final_time' in sim_b:
+                sim_b['final_time'] = 0.2
+            else:
+                sim_b['algorithm_params'].update({'max_sweeps': 2, 'min_sweeps': 1})
+            rc_b, out_b, err_b = child(wd, 'run', {'record': False, 'sim': sim_b})
+            case['sibling'] = {'output_filename': sim_b['output_filename'], 'finished': bool(rc_b == 0 and 'DONE' in out_b)}
+            if not case['sibling']['finished']:
+                ctx.violation('crash:sibling-simulation-in-the-same-directory-fails', (out_b + err_b)[-600:], case)
+                return
+            ctx.count('crash.sibling_runs')
+            mine = {stem + ref['ext'], stem + '.backup' + ref['ext'], stem_b + ref['ext'], stem_b + '.backup' + ref['ext'],
+                    'spec.json', 'strace.log', 'final.pkl', 'final.pkl.tmp'}
+            others = tuple(sorted(f_ for f_ in os.listdir(wd) if f_ not in mine and f_.endswith(ref['ext'])))
+        files = inspect_files(ctx, wd, ref['ext'], ref, stem=stem, others=others)
         judge_crash(ctx, 'crash', files, n_saved(out), 0, case)
         ctx.sig((name, sc, k), nontrivial=True)
         if i % 20 == 0:
